@@ -35,7 +35,8 @@ def trace_case(arg):
         muts = [t[0] for t in r.trace if cell.is_mutating(t)]
         out = mod.oracle(scn, ctx, start, sb, r, None)
     return {'muts': muts, 'nops': len(r.trace), 'final': out, 'digests': {str(m): _digest(r.trace, m) for m in muts},
-            'ops': {str(t[0]): t[1] for t in r.trace if t[0] in set(muts)}, 'exit': r.exit}
+            'ops': {str(t[0]): t[1] for t in r.trace if t[0] in set(muts)}, 'exit': r.exit,
+            'okm': [t[0] for t in r.trace if t[0] in set(muts) and cell.ok_of(t)]}
 
 
 def run_case(arg):
@@ -47,16 +48,21 @@ def run_case(arg):
         start = sb.snapshot()
         kw = mod.command(scn, ctx)
         plan = dict(kw.pop('plan', {}) or {})
-        plan['crash_at'] = at
+        mode = arg.get('mode', 'kill')
+        plan[{'kill': 'crash_at', 'int-before': 'interrupt_before', 'int-after': 'interrupt_after'}[mode]] = at
         r = sb.run(kw.pop('argv'), plan=plan, **kw)
-        if not r.crashed:
+        if mode == 'kill' and not r.crashed:
             return {'harness': 'HARNESS-CRASH-NOT-REACHED scenario=%s at=%s exit=%s' % (scn, at, r.exit)}
+        if mode != 'kill' and not any(t[4] == 'INTERRUPT' for t in r.trace):
+            return {'harness': 'HARNESS-INTERRUPT-NOT-DELIVERED scenario=%s at=%s exit=%s' % (scn, at, r.exit)}
         if _digest(r.trace, at) != arg['digest']:
             return {'harness': 'HARNESS-PREFIX-DIVERGENCE scenario=%s at=%s' % (scn, at)}
         out = mod.oracle(scn, ctx, start, sb, r, at)
     out.setdefault('detail', {})
     if isinstance(out['detail'], dict):
-        out['detail']['crash_before'] = [at, arg.get('op')]
+        out['detail']['stopped'] = [mode, at, arg.get('op')]
+    if mode != 'kill' and out.get('verdict') == 'viol':
+        out['sig'] = out['sig'] + '|by=SIGINT'
     return out
 
 
@@ -73,14 +79,18 @@ def run(mod, tier, seed):
         rep.add({'scn': s, 'at': 'end'}, t['final'])
         total_points += len(t['muts']) + 1
         for m in t['muts']:
-            cases.append({'mod': mod.__name__, 'scn': s, 'at': m, 'digest': t['digests'][str(m)], 'op': t['ops'][str(m)],
-                          'id': '%s@%d' % (json.dumps(s, sort_keys=True), m)})
+            for mode in ('kill', 'int-before', 'int-after'):
+                if mode == 'int-after' and m not in t['okm']:
+                    continue          # the call failed in the reference run: 'after it' is the next 'before'
+                # kill = SIGKILL before the operation; int-* = SIGINT (KeyboardInterrupt: handlers and finally blocks DO run)
+                cases.append({'mod': mod.__name__, 'scn': s, 'at': m, 'mode': mode, 'digest': t['digests'][str(m)], 'op': t['ops'][str(m)],
+                              'id': '%s@%d/%s' % (json.dumps(s, sort_keys=True), m, mode)})
     outs = pool.map_cases(__name__, 'run_case', cases)
     for c, o in zip(cases, outs):
         rep.add(c, o)
     rep.pick_samples(cases, outs)
     rep.assumptions = list(report.COMMON_ASSUMPTIONS) + list(getattr(mod, 'ASSUMPTIONS', []))
-    rep.extra.update({'scenarios': len(scns), 'crash_states': total_points,
+    rep.extra.update({'scenarios': len(scns), 'crash_states': total_points, 'stop_modes': ['SIGKILL before each mutating call', 'SIGINT before', 'SIGINT after'],
                       'prefix_determinism': 'the trace prefix of every crashed run was compared with the uncrashed trace'})
     if hasattr(mod, 'dimensions'):
         rep.extra['dimensions'] = mod.dimensions(tier)
